@@ -353,7 +353,40 @@ def gen_toolbox(rng: random.Random) -> dict:
             return e[2] in ("exact", "min", "minmax") and is_consuming(e[1])
         return False
 
+    def cycle_gadget():
+        # RECURSION: a cycle of rules kg -> ks -> kv -> kg (every turn consumes a literal first, so
+        # it terminates) in which the stack is written in one place only, defined in a seeded
+        # order with the alternatives in a seeded order -- plus one user ku that wraps the cycle
+        # in a backtracking operator with a tail that can fail after the cycle committed its
+        # changes.  Whatever an implementation (or its optimizer) decides ABOUT a rule once and
+        # for all -- "cannot touch the stack", "is pure" -- meets its fixed-point problem here.
+        lit = lambda: ["ref", rng.choice(LITERALS)]  # noqa: E731
+        x = rng.choice((["ref", rng.choice(("a_push_a", "a_push_b", "a_push_ab", "a_push_r", "a_push_any"))], ["seq", [lit(), ["ref", rng.choices(names, weights)[0]]]], ["seq", [lit(), ["ref", rng.choice(("a_pop", "a_drop", "a_pushl_b", "a_pop_all"))]]]))
+        alts = [["call", "kg"], x]
+        if rng.random() < 0.5:
+            alts.reverse()
+        body = ["call", "kv"]
+        g = {
+            "kv": ["alt", alts],
+            "ks": rng.choice((["star", body], ["star", body], ["plus", body], ["opt", body], ["rep", body, "max", 1, 3], ["rep", body, "minmax", 1, 2])),
+            "kg": ["seq", [lit(), ["call", "ks"]] + ([lit()] if rng.random() < 0.7 else [])],
+        }
+        tail = ["seq", [["call", rng.choice(("kg", "kg", "kv"))], rng.choice((lit(), lit(), ["ref", "a_pop"], ["ref", "a_peek"]))]]
+        g["ku"] = rng.choice((["opt", tail], ["opt", tail], ["star", tail], ["alt", [tail, ["ref", rng.choices(names, weights)[0]]]], ["not", tail], ["and", tail], ["plus", tail]))
+        order = ["kv", "ks", "kg"]
+        rng.shuffle(order)
+        for nm in order + ["ku"]:
+            rules[nm] = {"mod": rng.choices(("", "_", "@"), (8, 1, 1))[0] if nm != "ku" else "", "ast": g[nm]}
+        consuming.update(("kg", "kv"))
+        if g["ks"][0] == "plus" or (g["ks"][0] == "rep" and g["ks"][2] == "minmax"):
+            consuming.add("ks")
+        if g["ku"][0] == "plus":
+            consuming.add("ku")
+
+    gad_at = rng.randrange(n_rules) if rng.random() < 0.35 else None
     for i in range(n_rules):
+        if i == gad_at:
+            cycle_gadget()
         e = normal_form() if rng.random() < p_nf else expr(rng.randint(1, 3))
         mod = rng.choices(("", "_", "@", "$", "!"), (7, 2, 1, 0.5, 0.5))[0]
         name = f"c{i}"
